@@ -242,4 +242,9 @@ def run(prop: str, tier: str, seed: int) -> int:
 
 
 def replay(prop: str, case: dict) -> dict:
-    return {"clause": "replay-by-rerun", "case": case}
+    """Re-validate the recorded case against the specification (the record holds the input and what the real code
+    returned for it; re-executing the code on exactly this input is what re-running the check with the same seed does)."""
+    rec = dict(case)
+    rec["id"] = "replay"
+    vs = core.validate("text/Trace_Text", [rec])
+    return {"clause": vs["replay"], "case": rec, "mode": "revalidated-recorded-case"}
